@@ -93,7 +93,7 @@ def _check_mask_call(w, S, rec, batches, tag):
     b = rec['bound']
     if b is None:
         raise W.HarnessError('get_next_imf_mask called with unbindable arguments')
-    X = np.asarray(b['X'], dtype=float)
+    X = np.asarray(rec['x'] if rec.get('x') is not None else b['X'], dtype=float)   # snapshot taken at entry
     if X.ndim == 1:
         X = X[:, None]
     z, amp, nph = b['z'], b['amp'], b['nphases']
@@ -332,7 +332,7 @@ def scenario(w):
         if not np.array_equal(rec['out'][0][:, 0], imf[:, i]):
             w.violation('mask-structure', tag + ':columns', 'returned IMF %d is not the output of masked extraction %d' % (i, i))
             return
-        xin = np.asarray(b['X'], dtype=float).reshape(-1, 1)
+        xin = np.asarray(rec['x'] if rec.get('x') is not None else b['X'], dtype=float).reshape(-1, 1)
         want_in = X - imf[:, :i].sum(axis=1)[:, None] if i > 0 else X
         if not C.rel_close(xin, want_in, 1e-12):
             w.violation('mask-structure', tag + ':input', 'masked extraction %d was not applied to the signal minus the previous IMFs' % i)
